@@ -386,14 +386,14 @@ def _check_not_null_cut(R, exf):
                     out.add(val)
             return out
 
+        fproblems = []
         for w in fa.backedge_worlds(lp0[0]):
             if False in nullness(w) or True in nullable(w):
                 continue
-            ok_all = False
-            R.violation("C06.admit", "extract|cut-escapes",
-                        "extract(): the column loop goes on to the next column on a path where the value was not shown to be non-NULL and the "
-                        "column not shown to be nullable (%s): a line can be admitted with a NULL in a NOT NULL column"
-                        % (", ".join(sorted(fa.describe(x) for x in w))[:200] or "no test at all"), [exf.loc(lp0[0])])
+            fproblems.append(("extract|cut-escapes",
+                              "extract(): the column loop goes on to the next column on a path where the value was not shown to be non-NULL and the "
+                              "column not shown to be nullable (%s): a line can be admitted with a NULL in a NOT NULL column"
+                              % (", ".join(sorted(fa.describe(x) for x in w))[:200] or "no test at all"), exf.loc(lp0[0])))
             break
         for cb in clears + empty_rows:
             ws = fa.worlds_at(cb) or []
@@ -401,11 +401,32 @@ def _check_not_null_cut(R, exf):
                 continue
             badw = [w for w in ws if not (True in nullness(w) and False in nullable(w))]
             if badw:
+                fproblems.append(("extract|cut-unconditional", "the NOT NULL cut in extract() is reached without `value is NULL` and `column "
+                                  "is NOT NULL` both having been established (%s): admissible lines would be dropped"
+                                  % (", ".join(sorted(fa.describe(x) for x in badw[0]))[:200] or "no test"), exf.loc(cb)))
+        if not fproblems:
+            sws = []
+        else:
+            # the same obligation by edge dominance with constant flags (`valid = false; ..; if !valid { clear }` cuts after the loop):
+            # either proof suffices; only when both fail are the path-fact findings reported
+            dom_ok = bool(sws)
+            for sw in sws:
+                t_ = exf.blocks[sw]["term"]
+                zero_ = [b_ for v_, b_ in t_["targets"] if v_ == "0"]
+                if not zero_:
+                    continue
+                behind = any((PR.bool_guard(exf, c_) or (None, None, None))[1] is not None and
+                             exf.dominates(PR.bool_guard(exf, c_)[1 if short(c_.name).endswith("is_null") else 2], sw) for c_ in isnull)
+                good_, _ = PR.all_paths_hit_flags(exf, zero_[0], clears + empty_rows)
+                if not behind or not good_:
+                    dom_ok = False
+            if dom_ok:
+                R.note("C06.admit: NOT NULL cut decided by edge dominance with constant flags (the path-fact form did not apply)")
+            else:
                 ok_all = False
-                R.violation("C06.admit", "extract|cut-unconditional", "the NOT NULL cut in extract() is reached without `value is NULL` and `column "
-                            "is NOT NULL` both having been established (%s): admissible lines would be dropped"
-                            % (", ".join(sorted(fa.describe(x) for x in badw[0]))[:200] or "no test"), [exf.loc(cb)])
-        sws = []
+                for k_, m_, l_ in fproblems:
+                    R.violation("C06.admit", k_, m_, [l_])
+                sws = []
     for sw in sws:
         t = exf.blocks[sw]["term"]
         zero = [b for v, b in t["targets"] if v == "0"]
